@@ -43,7 +43,8 @@ Inners == {<<>>,
            <<IAttr("a", NNum(4)), IBlock("p", <<>>, <<>>)>>}
 
 ItemKinds ==
-    {IAttr("a", v) : v \in {NNum(2), NNum(26), StrLit("x"), NTuple(<<NNum(2)>>), NNull, NBool(TRUE)}}
+    {IAttr("a", v) : v \in {NNum(2), NNum(26), StrLit("x"), NTuple(<<NNum(2)>>), NNull, NBool(TRUE),
+                             NVar("n1"), NVar("u"), NVar("d"), NVar("nn")}}
     \cup {IAttr("b", NBool(TRUE)), IAttr("c", NNum(2)), IBlock("r", <<>>, <<>>)}
     \cup {IBlock("p", ls, b) : ls \in {<<>>, <<"x">>}, b \in Inners}
     \cup {IBlock("q", ls, b) : ls \in {<<"x">>, <<"y">>, <<"x", "y">>}, b \in Inners}
@@ -51,7 +52,10 @@ ItemKinds ==
     \cup {IBlock("q", ls, b) : ls \in {<<"x", "y", "z">>, <<"x", "y", "w">>, <<"x", "y", "z", "v1">>, <<"x", "y", "z", "v2">>, <<"x", "u", "z", "v1">>},
                                b \in {<<>>, <<IAttr("a", NNum(2))>>}}
 
-EmptyEnv == [x \in {} |-> Null(TDyn)]
+\* the evaluation context of the decoded bodies: a known number, an unknown number, the dynamic
+\* unknown and a typed null (kept in sync with harness/dec.Ctx)
+EmptyEnv == [x \in {"n1", "u", "d", "nn"} |->
+               CASE x = "n1" -> Num(2) [] x = "u" -> Unk(TNum) [] x = "d" -> DynVal [] OTHER -> Null(TStr)]
 NoPred == R(Oom, FALSE)
 
 LeafSeq == SetToSeq(LeafSpecs)
